@@ -1475,7 +1475,38 @@ def _set(ip, args, kwargs, node):
 @model(range)
 def _range(ip, args, kwargs, node):
     if has_sym(args):
-        raise Unsupported("range with symbolic bounds needs a loop contract")
+        # symbolic bounds: exact per number of elements; the count is explored up to hooks['max_range'] (a bound,
+        # recorded as assumption `bound:range<=N`)
+        maxn = ip.hooks.get('max_range')
+        if maxn is None:
+            raise Unsupported("range with symbolic bounds needs a loop contract")
+        if len(args) == 1:
+            lo, hi, st = 0, args[0], 1
+        elif len(args) == 2:
+            lo, hi, st = args[0], args[1], 1
+        else:
+            lo, hi, st = args
+        if not isinstance(st, int) or st == 0:
+            raise Unsupported("range with symbolic step")
+        memo = ip.hooks.setdefault(('range_memo',), {})
+        key = (str(lift(lo)), str(lift(hi)), st)
+        if key in memo:
+            n = memo[key]
+        else:
+            n = ip.ctx.choose(maxn + 2, 'range-count')
+            memo[key] = n
+        span = (lift(hi) - lift(lo)) if st > 0 else (lift(lo) - lift(hi))
+        a = abs(st)
+        ip.ctx.assumed.append(f'bound:range<={maxn}')
+        if n == maxn + 1:
+            raise PathEnd()           # more elements than the explored bound
+        if n == 0:
+            ip.ctx.assume(span <= 0)
+        else:
+            ip.ctx.assume(z3.And(span > (n - 1) * a, span <= n * a))
+        if not ip.ctx.feasible(z3.BoolVal(True)):
+            raise PathInfeasible()
+        return [wrap(lift(lo) + k * st) for k in range(n)]
     return range(*args)
 
 
